@@ -121,7 +121,29 @@ class Stmts(Calls):
                 yield s2, (None if ok else Ctl('raise', ExcVal(AssertionError, (), node.lineno)))
 
     def st_Global(self, node, st):
-        raise Outside("global statement")
+        """module-level state that functions re-bind: what a call reads is whatever an earlier call left there - an
+        arbitrary value of the declared type; a write is an effect outside every frame (reported under :frame)"""
+        from .types import from_annotation
+        globs = st.frame.globs
+        ann = globs.get('__annotations__', {})
+        for name in node.names:
+            ty = None
+            if name in ann:
+                try:
+                    ty = from_annotation(ann[name], self.reg, globs)
+                except Outside:
+                    ty = None
+            if ty is None or ty.kind == 'any':
+                cur = globs.get(name)
+                if is_concrete(cur) and cur is not None:
+                    ty = self.lift(cur).ty
+            if ty is None or ty.kind == 'any':
+                raise Outside("global %s: its type is unknown (no module-level annotation)" % name)
+            val = self.fresh('global_' + name, ty)
+            self.assume_valid(val, st)
+            st.frame.vars[name] = val
+            st.frame.vars['!global:' + name] = True
+        yield st, None
 
     def st_Import(self, node, st):
         for a in node.names:
@@ -227,6 +249,9 @@ class Stmts(Calls):
                         h.val = V(z3.K(to_sort(t.args[0], self.reg), z3.BoolVal(False)), t)
                     elif t.kind == 'map':
                         h.val = V(z3.K(to_sort(t.args[0], self.reg), opt_sort(to_sort(t.args[1], self.reg)).none), t)
+            if st.frame.vars.get('!global:' + tgt.id) and not st.spec:
+                self.oblige(st, z3.BoolVal(False), (st.frame.qualname or '?') + ":frame",
+                            "assignment to the module-level variable %s (state outside every contract's frame)" % tgt.id)
             st.frame.vars[tgt.id] = v
             yield st, None
             return
@@ -476,6 +501,10 @@ class Stmts(Calls):
                 if z3.is_int_value(off) and off.as_long() == 0:
                     return n_eff, (lambda i: V(base[self.term(i, INT)], it.ty.args[0]))
                 return n_eff, (lambda i: V(base[off + self.term(i, INT)], it.ty.args[0]))
+            ed = self.elem_defs.get(t.get_id())
+            if ed is not None and ed[0].eq(t):
+                _seq, ivar, val_t, ety = ed
+                return z3.Length(it.t), (lambda i: V(z3.substitute(val_t, (ivar, self.term(i, INT))), ety))
             return z3.Length(it.t), (lambda i: V(it.t[self.term(i, INT)], it.ty.args[0]))
         if isinstance(it, V) and it.ty.kind == 'bytes':
             return z3.Length(it.t), (lambda i: V(z3.BV2Int(it.t[self.term(i, INT)]), INT))
@@ -646,6 +675,7 @@ class Stmts(Calls):
         exits = []      # break paths
         if is_for:
             elem = f(V(i, INT))
+            self.instantiate_element_facts(body_st, elem, i)
             for x in (elem if isinstance(elem, tuple) else (elem,)):
                 if isinstance(x, V) and x.ty.kind in ('cls', 'tuple', 'opt'):
                     self.assume_valid(x, body_st)
@@ -699,6 +729,32 @@ class Stmts(Calls):
             for s in exits:
                 results.append((s, None))
         return missing
+
+    def instantiate_element_facts(self, st, elem, i):
+        """the loop visits element i of a sequence that is characterised by element-wise facts (forall k. ... seq[k] ...):
+        state their instance at i (an instance of an assumed fact; saves the solver the search)"""
+        for x in (elem if isinstance(elem, tuple) else (elem,)):
+            if not (isinstance(x, V) and x.t is not None and z3.is_app_of(x.t, z3.Z3_OP_SEQ_NTH)):
+                continue
+            seq = x.t.arg(0)
+            for h in list(st.pc):
+                if not (z3.is_quantifier(h) and h.is_forall() and h.num_vars() == 1 and h.var_sort(0) == z3.IntSort()):
+                    continue
+                body = h.body()
+                found = False
+                todo = [body]
+                seen = set()
+                while todo and not found:
+                    e = todo.pop()
+                    if e.get_id() in seen:
+                        continue
+                    seen.add(e.get_id())
+                    if z3.is_app_of(e, z3.Z3_OP_SEQ_NTH) and e.arg(0).eq(seq) and z3.is_var(e.arg(1)):
+                        found = True
+                    elif z3.is_app(e):
+                        todo.extend(e.children())
+                if found:
+                    st.assume(z3.substitute_vars(body, i))
 
     def lift_int(self, n):
         return n if isinstance(n, V) or is_concrete(n) else V(n, INT)
@@ -811,10 +867,13 @@ class Stmts(Calls):
             raise Outside("async comprehension")
         return g.target, g.iter, g.ifs, comp.elt
 
-    def eval_under_index(self, target, f, idx, exprs, st):
+    def eval_under_index(self, target, f, idx, exprs, st, inrange=None):
         """evaluate exprs with `target` bound to element idx of the iterable; returns list of (state, [vals]|Raised)
         executed in an isolated fork whose path condition starts empty (conditions are collected relative to st)"""
         sub = st.fork()
+        if inrange is not None:
+            # everything derived below is used under `inrange ==>` only; knowing it keeps slices / indices simple
+            sub.assume(inrange)
         base = len(sub.pc)
         base_d = len(sub.dec)
         sub.stack.append(Frame({}, len(sub.stack) - 1, sub.frame.globs, sub.frame.qualname))
@@ -908,11 +967,11 @@ class Stmts(Calls):
         facts (map: element-wise; filter: order-preserving index maps)."""
         target, iter_e, ifs, elt = self.comp_parts(comp)
         i = self.fresh_term('ci', z3.IntSort())
-        outs = self.eval_under_index(target, f, V(i, INT), list(ifs) + [elt], st)
-        normal = [(s2, vs, c) for s2, vs, c in outs if not isinstance(vs, Raised)]
-        raising = [(s2, vs, c) for s2, vs, c in outs if isinstance(vs, Raised)]
         nt = n if not is_concrete(n) else z3.IntVal(n)
         inrange = z3.And(i >= 0, i < nt)
+        outs = self.eval_under_index(target, f, V(i, INT), list(ifs) + [elt], st, inrange=inrange)
+        normal = [(s2, vs, c) for s2, vs, c in outs if not isinstance(vs, Raised)]
+        raising = [(s2, vs, c) for s2, vs, c in outs if isinstance(vs, Raised)]
         if raising and not st.spec:
             # some element makes the comprehension raise
             rcond = self._or([c for _, _, c in raising])
@@ -943,8 +1002,13 @@ class Stmts(Calls):
             cond_t = self.b(ct) if cond_t is None else z3.If(self.b(c), self.b(ct), cond_t)
         r = self.fresh('comp', LIST(ety))
         if not ifs:
+            named = self.lifted_map(val_t, i, nt, to_sort(ety, self.reg))
+            if named is not None:
+                r = V(named, LIST(ety))
             st.assume(z3.Length(r.t) == nt)
             st.assume(z3.ForAll([i], z3.Implies(inrange, r.t[i] == val_t)))
+            # element i of this sequence, as a term (used when the sequence is iterated or indexed in range)
+            self.elem_defs[r.t.get_id()] = (r.t, i, val_t, ety)
         else:
             # filter: r[k] = val(idx(k)), idx strictly increasing into the kept positions, onto them (inv)
             tag = next(self.fresh_counter)
@@ -1132,6 +1196,50 @@ class Stmts(Calls):
 
     def has_free_bound(self, terms):
         return False
+
+    def lifted_map(self, val_t, idx, n, sort):
+        """the sequence [val_t[idx:=k] for k < n] as PM_shape(params..., n) (same lambda lifting as lifted_sum): two
+        comprehensions of the same shape over the same parameters are the same term.  Sound by extensionality: length
+        and every element are fixed by the facts the caller states."""
+        val_t = z3.simplify(val_t)
+        params = []
+
+        def contains_idx(x, memo={}):
+            k = x.get_id()
+            if k in memo and memo[k][1].eq(x):
+                return memo[k][0]
+            if x.eq(idx):
+                r = True
+            elif z3.is_app(x):
+                r = any(contains_idx(c) for c in x.children())
+            elif z3.is_quantifier(x):
+                r = True
+            else:
+                r = False
+            memo[k] = (r, x)
+            return r
+
+        def collect(x):
+            if not contains_idx(x):
+                if z3.is_int_value(x) or z3.is_true(x) or z3.is_false(x) or z3.is_bv_value(x):
+                    return True
+                if not any(p.eq(x) for p, _ph in params):
+                    params.append((x, z3.Const('PM!%d' % len(params), x.sort())))
+                return True
+            if z3.is_app(x):
+                return all(collect(c) for c in x.children())
+            return False
+        if not collect(val_t):
+            return None
+        shape = z3.substitute(val_t, *params) if params else val_t
+        cidx = z3.Int('M!i')
+        shape = z3.substitute(shape, (idx, cidx))
+        key = 'map|' + shape.sexpr() + '|' + ','.join(str(ph.sort()) for _p, ph in params)
+        if key not in self.sum_cache:
+            pm = z3.Function('pmap!%d' % len(self.sum_cache), *([ph.sort() for _p, ph in params] + [z3.IntSort(), z3.SeqSort(sort)]))
+            self.sum_cache[key] = (pm, shape, [ph for _p, ph in params])
+        pm = self.sum_cache[key][0]
+        return pm(*([p for p, _ph in params] + [n]))
 
     def _allany_symbolic(self, fname, comp, st, n, f):
         target, iter_e, ifs, elt = self.comp_parts(comp)
